@@ -224,6 +224,18 @@ reg(
     "DESIGN.md §3 C03",
 )
 
+reg(
+    "C04",
+    "exploration",
+    "differential testing against an independent reference encoder/decoder + metamorphic structure-preserving file edits (unknown chunks, dropped optional chunks, truncated CVAL lists, permuted headers)",
+    "Generated abstract descriptions are encoded by vlib.refcodec's own encoder with generated variations (foreign versions, dropped optional "
+    "chunks, truncated CVAL lists, permuted header chunks, unknown chunks at generated positions, interior empty module positions) and the "
+    "library's snapshot after loading must equal the description adjusted by the documented defaults; every fixture is compared with the "
+    "reference decoder's reading of it and re-loaded under the same edit classes (thorough: an unknown chunk at every position x 3 payloads).",
+    "Reference codec trust base listed in evidence; CVAL truncation not applied to MetaModules.",
+    "DESIGN.md §3 C04",
+)
+
 NOT_APPLICABLE = {}
 
 ALL = ["C%02d" % i for i in range(1, 21)]
